@@ -173,7 +173,8 @@ pub struct ScenShape {
     /// 0: directly in the feature; 1 / 2: in the feature's first / second rule
     pub rule: usize,
     pub attempts: usize,
-    /// events per attempt: 2 = Started, Finished; 3 = with one step result
+    /// events per attempt: 2 = Started, Finished; 3 = with one step result; 4 = with a log
+    /// line and a step result; n >= 5 = with n - 2 step results (a long scenario)
     pub events: usize,
     /// the only attempt fails with a retry left and the retry never comes (a run cut by
     /// fail-fast, a skipped step rewritten by `fail_on_skipped` under retries)
@@ -226,7 +227,10 @@ pub fn build_poset(shape: &Shape) -> Poset {
     let mut specs = Vec::new();
     for f in &shape.feats {
         let mk = |k: usize| -> Vec<ScenSpec> {
-            f.iter().filter(|s| s.rule == k).map(|_| ScenSpec { tags: vec![], steps: vec![StepKind::Matched] }).collect()
+            f.iter()
+                .filter(|s| s.rule == k)
+                .map(|s| ScenSpec { tags: vec![], steps: vec![StepKind::Matched; s.events.saturating_sub(2).max(1)] })
+                .collect()
         };
         let nrules = f.iter().map(|s| s.rule).max().unwrap_or(0);
         specs.push(FeatSpec {
@@ -289,17 +293,20 @@ pub fn build_poset(shape: &Shape) -> Poset {
                 let retries = if s.cut { Some((0, 1)) } else { (s.attempts > 1).then(|| (k, s.attempts - 1 - k)) };
                 let last_attempt = k + 1 == s.attempts && !s.cut;
                 let mut seq = vec![ScEv::Started];
-                if s.events >= 4 {
+                if s.events == 4 {
                     // a log line emitted inside the scenario: an event like any other
                     seq.push(ScEv::Log(format!("log of {sname}")));
                 }
-                if s.events >= 3 {
-                    seq.push(ScEv::Step(
-                        false,
-                        step_text.clone(),
-                        0,
-                        if last_attempt { StepEv::Passed } else { StepEv::Failed("boom".into(), None) },
-                    ));
+                // (5 and more: a long scenario, `events - 2` step results of as many steps)
+                let nsteps = if s.events >= 5 { s.events - 2 } else { usize::from(s.events >= 3) };
+                for n in 1..=nsteps {
+                    let text = if n == 2 {
+                        format!("{}step {sname} {n}", crate::spec::LEAD)
+                    } else {
+                        format!("step {sname} {n}")
+                    };
+                    let res = if last_attempt || n < nsteps { StepEv::Passed } else { StepEv::Failed("boom".into(), None) };
+                    seq.push(ScEv::Step(false, text, 0, res));
                 }
                 seq.push(ScEv::Finished);
                 for e in seq {
@@ -618,6 +625,11 @@ pub fn tier_shapes(thorough: bool) -> Vec<Shape> {
         v.push(Shape { feats: vec![one(1, 2, 4)], parsing_finished: pf, parse_err: pe, twins: false });
     }
     v.push(Shape { feats: vec![one(0, 1, 4), one(0, 1, 4)], parsing_finished: false, parse_err: false, twins: false });
+    // a long scenario (more events than any batch size a writer might use) buffered behind
+    // a short one: in the feature, inside a rule, and in a second feature
+    v.push(Shape { feats: vec![vec![one(0, 1, 2)[0].clone(), one(0, 1, 36)[0].clone()]], parsing_finished: false, parse_err: false, twins: false });
+    v.push(Shape { feats: vec![vec![one(1, 1, 2)[0].clone(), one(1, 1, 36)[0].clone()]], parsing_finished: false, parse_err: false, twins: false });
+    v.push(Shape { feats: vec![one(0, 1, 2), one(0, 1, 35)], parsing_finished: false, parse_err: false, twins: false });
     // abandoned retries: at feature level, inside a rule, next to a complete scenario, before
     // another feature
     let cut = |rule: usize| ScenShape { rule, attempts: 1, events: 3, cut: true };
